@@ -20,6 +20,10 @@ def case_fn(c):
                                             c.get("cutoff", 0.0), only_vars=c.get("only_vars"))
     elif kind == "adaptive":
         fails = oracle.check_adaptive_run(c["model"], c["T"], c["dt"], c.get("dts"), c["vec"], method=c.get("method", "RK45"))
+    elif kind == "overrides":
+        fails = oracle.check_overrides(c["model"], c["ops"], c["vec"], seed=c.get("seed", 0))
+    elif kind == "outputs":
+        fails = oracle.check_outputs(c["model"], c["request"], c["form"], c["vec"])
     else:
         raise ValueError(kind)
     return dict(status="violated" if fails else "ok", fails=fails[:2])
